@@ -284,7 +284,7 @@ impl CheckDef for E2e {
 }
 
 pub fn run(ctx: &mut Ctx) {
-    ctx.rule("E2E: cycles (2..3/5) of `limit` (1..4) connections on one socket pair with max_live_vsocks = limit; each side writes a little and lets go in a generated way (drop both halves, shutdown then drop, reader first, wait for EOF then drop, writer first); closing datagrams are dropped / delayed / duplicated freely; dont_wait_for_lastack both ways; old datagrams are replayed after the connections ended; in 30 % of the cases the path dies (both directions or one) at a generated instant of each cycle's closing phase until shortly before the next cycle; in 20 % of the cases a socket's cancellation token fires at a generated instant. Oracle: every connection of every later cycle is established (slots released within T_end = 82 s); at the end only the dispatchers are alive; each connection task reports its end (cfg-guarded observer hook) and nothing carrying its id is emitted afterwards, stale datagrams included; cancellation: nothing emitted 25 ms later, tasks dropped promptly, no write succeeds. non-trivial = a closing datagram lost or a cancel; distinct by hash of the wire-log shape");
+    ctx.rule("E2E: cycles (2..3/5) of `limit` (1..4) connections on one socket pair with max_live_vsocks = limit; each side writes a little and lets go in a generated way (drop both halves, shutdown then drop, reader first, wait for EOF then drop, writer first); closing datagrams are dropped / delayed / duplicated freely; dont_wait_for_lastack both ways; old datagrams are replayed after the connections ended; in 30 % of the cases the path dies (both directions or one) at a generated instant of each cycle's closing phase until shortly before the next cycle; in 20 % of the cases a socket's cancellation token fires at a generated instant (the applications of half of the connections open at that moment write and flush again afterwards). Oracle: every connection of every later cycle is established (slots released within T_end = 82 s); at the end only the dispatchers are alive; each connection task reports its end (cfg-guarded observer hook) and nothing carrying its id is emitted afterwards, stale datagrams included; cancellation: nothing emitted 25 ms later, tasks dropped promptly, no write succeeds. non-trivial = a closing datagram lost or a cancel; distinct by hash of the wire-log shape");
     ctx.assume("end-of-task instants come from the crate's cfg-guarded observer hook; alive tasks from tokio's runtime metrics minus the harness's own task counter");
     ctx.replay_corpus::<E2e>();
     ctx.run_generated::<E2e>(ctx.tier.pick(16_000, 600_000));
